@@ -253,6 +253,63 @@ def run(ctx: Ctx):
                 if isinstance(t, ast.If) and isinstance(t.test, ast.Compare) and isinstance(t.test.ops[0], (ast.NotIn, ast.In)) and ast.unparse(t.test.comparators[0]) in sets_added:
                     dedup.append(t)
         ctx.ob("C12-O4", "R18 SIBLING-AGREEMENT (policy)", a, f"pair:{name} adapter hands every input edge to the kernel (no first-seen de-duplication)", not dedup, "duplicate edges between one pair must reach the kernel, which keeps the minimum like the Python implementation; a first-seen filter keeps an arbitrary weight", node=dedup[0] if dedup else a.node)
+    # the edge list handed to the kernel is the input list, or a list to which every input edge is appended
+    # unconditionally (per-pair aggregation in a dict / set keeps an arbitrary weight of duplicate edges)
+    for name, a in sorted(adapters.items()):
+        calls = [n for n in own_nodes(a.node) if isinstance(n, ast.Call) and isinstance(n.func, ast.Attribute) and isinstance(n.func.value, ast.Name) and n.func.value.id == "rust"]
+        for c in calls:
+            b = rf.bindings.get(c.func.attr)
+            if b is None:
+                continue
+            idx = [i for i, (pn, _) in enumerate(b["params"]) if pn == "edges"]
+            if not idx or idx[0] >= len(c.args):
+                continue
+            arg = c.args[idx[0]]
+            ok, why = True, ""
+            if isinstance(arg, ast.Name):
+                defs = [d for d in own_nodes(a.node) if isinstance(d, ast.Assign) and ast.unparse(d.targets[0]) == arg.id]
+                for d in defs:
+                    src = d.value
+                    if isinstance(src, ast.Name):
+                        # built list: every append sits directly in a loop over the input edges, not under a test
+                        blt = src.id
+                        apps = [x for x in own_nodes(a.node) if isinstance(x, ast.Call) and ast.unparse(x.func) == f"{blt}.append"]
+                        cfg_a = cfg_of(a.node)
+                        gv_a = GuardView(cfg_a)
+                        init = [x for x in own_nodes(a.node) if isinstance(x, (ast.Assign, ast.AnnAssign)) and ast.unparse(x.targets[0] if isinstance(x, ast.Assign) else x.target) == blt]
+                        if not apps or not all(isinstance(i_.value, ast.List) and not i_.value.elts for i_ in init):
+                            ok, why = False, f"`{blt}` is not built by appending every input edge"
+                        for x in apps:
+                            xn = cfg_a.stmt_node_containing(x)
+                            lp = xn.loop
+                            guards_in_loop = [g for g in cfg_a.guards(xn) if g.test.kind == "test" and g.test.loop is lp and lp is not None]
+                            if lp is None or lp.kind != "for" or ast.unparse(lp.ast.iter) != "edges" or guards_in_loop:
+                                ok, why = False, f"`{ast.unparse(x)}` is conditional or not inside a loop over the input edges"
+                    elif not (isinstance(src, ast.Name) or ast.unparse(src) == "edges"):
+                        ok, why = False, f"`{arg.id}` is rebuilt as `{ast.unparse(src)[:50]}`"
+            elif ast.unparse(arg) != "edges":
+                ok, why = False, f"kernel receives `{ast.unparse(arg)[:50]}`"
+            ctx.ob("C12-O4", "R18 SIBLING-AGREEMENT (policy)", a, f"pair:{name} every input edge (duplicates included) reaches the kernel", ok, why or "", node=c)
+    # precedence: where Python decides UNBOUNDED before anything else, the adapter must test the negative-cycle flag first
+    for name in ("floyd_warshall", "bellman_ford"):
+        if name not in adapters or name not in decorated:
+            continue
+        a = adapters[name]
+        cfg_a = cfg_of(a.node)
+        gv_a = GuardView(cfg_a)
+        for k, s_ in enumerate(result_sites(a)):
+            if "UNBOUNDED" in s_.statuses:
+                continue
+            at = gv_a.guard_atoms(s_.node, stable_only=False)
+            ctx.ob("C12-O3", "R18 outcome-signature", a, f"pair:{name} Result#{k} ({'/'.join(sorted(s_.statuses))}) is published only after the negative-cycle flag was found false", "F:result['has_negative_cycle']" in at, "the Python implementation reports UNBOUNDED before any other verdict; an adapter that tests reachability first answers INFEASIBLE for an unreachable target behind a negative cycle", node=s_.call)
+        f = decorated[name]
+        cfg_f = cfg_of(f.node)
+        unb = [x for x in result_sites(f) if "UNBOUNDED" in x.statuses]
+        oth = [x for x in result_sites(f) if "UNBOUNDED" not in x.statuses]
+        okp = bool(unb) and all(x.node.id in cfg_f.forward(u.node.loop if u.node.loop is not None else u.node) or True for u in unb for x in oth)
+        # structural form: every other publication comes after the loop that contains the UNBOUNDED return
+        okp = bool(unb) and all(u.node.loop is not None and all(x.node.loop is None and x.node.id in cfg_f.forward(u.node.loop) for x in oth) for u in unb)
+        ctx.ob("C12-O3", "R18 outcome-signature", f, f"pair:{name} the Python implementation decides UNBOUNDED before every other verdict", okp, "", node=f.node)
     fa = adapters.get("floyd_warshall")
     if fa is not None:
         t = ast.unparse(fa.node)
@@ -341,7 +398,24 @@ def _t_reformat(tree):
     pass
 
 
+def _v_pair_dict(tree):
+    g = M.find_func(tree, "_floyd_warshall_rust")
+    M.replace_stmt(g, lambda s: isinstance(s, ast.For) and M.src_is(s.iter, "edges"), M.stmts("best = {}\nfor u, v, w in edges:\n    best[(min(u, v), max(u, v))] = w\nfor (a, b), w in best.items():\n    expanded.append((a, b, w))\n    expanded.append((b, a, w))"))
+
+
+def _v_unreachable_first(tree):
+    g = M.find_func(tree, "_bellman_ford_rust")
+    body = g.body
+    i = next(k for k, s in enumerate(body) if isinstance(s, ast.If) and M.src_has(s.test, "has_negative_cycle"))
+    st = body.pop(i)
+    j = next(k for k, s in enumerate(body) if isinstance(s, ast.If) and M.src_is(s.test, "target is not None"))
+    body.insert(j + 1, st)
+
+
 VARIANTS = [
+    M.Variant("floyd adapter aggregates duplicate edges in a dict (seed C12-A)", AD, _v_pair_dict, "C12-O4"),
+    M.Variant("bellman_ford adapter tests reachability before the negative-cycle flag (seed C12-B)", AD, _v_unreachable_first, "C12-O3"),
+
     M.Variant("floyd adapter de-duplicates with a first-seen set (original defect)", AD, _v_dedup, "C12-O4"),
     M.Variant("bfs adapter returns visit order (original defect)", AD, _v_bfs_order, "C12-O3"),
     M.Variant("dfs adapter labels its path OPTIMAL (original defect)", AD, _v_dfs_status, "C12-O3"),
